@@ -61,9 +61,9 @@ CFGS = {   # specs/<name>.cfg: written by write_cfgs() (python -m harness.props.
     "MC_DownConverter_neg_shortburst": lambda: down_cfg(Bug="shortburst", MaxCmds=3, Stall=False, Lmax=3),
     "MC_UpConverter_asc_c4":        lambda: up_cfg(MaxCmds=4, Masks=(1,), Flush=True),
     "MC_UpConverter_fix_c4":        lambda: up_cfg(Fix=True, Orders="any", MaxCmds=4, Masks=(1,), Flush=True),
-    "MC_UpConverter_asc_env":       lambda: up_cfg(MaxCmds=3, Masks=(0, 1), Flush=True, Stall=True, Lmax=4),
-    "MC_UpConverter_fix_env":       lambda: up_cfg(Fix=True, Orders="any", MaxCmds=3, Masks=(0, 1), Flush=True, Stall=True, Lmax=4),
-    "MC_UpConverter_r4_asc":        lambda: up_cfg(R=4, MaxCmds=4, Masks=(1,), Flush=True),
+    "MC_UpConverter_asc_env":       lambda: up_cfg(MaxCmds=3, Masks=(0, 1), Flush=False, Stall=True, Lmax=4),
+    "MC_UpConverter_fix_env":       lambda: up_cfg(Fix=True, Orders="any", MaxCmds=3, Masks=(0, 1), Flush=False, Stall=True, Lmax=4),
+    "MC_UpConverter_r4_asc":        lambda: up_cfg(R=4, MaxCmds=3, Masks=(1,), Flush=True),
     "MC_UpConverter_r4_fix":        lambda: up_cfg(R=4, Fix=True, Orders="any", MaxCmds=3, Masks=(1,), Flush=True),
     "MC_UpConverter_r4_pinned_any": lambda: up_cfg(R=4, Orders="any", MaxCmds=3),
     "MC_UpConverter_nolock":        lambda: up_cfg(Fix=True, Orders="any", Bug="nolock", MaxCmds=4, Masks=(1,), Flush=True),
@@ -116,7 +116,7 @@ def models(tier, seed):
             m("MC_UpConverter_fix_c4", "up r2 with the proposed term, ALL orders, 4 cmds"),
             m("MC_UpConverter_asc_env", "up r2, pinned design, ascending orders, masks {0,1}, memory stalls, latency 3..4"),
             m("MC_UpConverter_fix_env", "up r2 with the proposed term, ALL orders, masks {0,1}, memory stalls, latency 3..4"),
-            m("MC_UpConverter_r4_asc", "up r4, pinned design, ascending orders, 4 cmds", 6),
+            m("MC_UpConverter_r4_asc", "up r4, pinned design, ascending orders, 3 cmds"),
             m("MC_UpConverter_r4_fix", "up r4 with the proposed term, ALL orders, 3 cmds"),
             m("MC_UpConverter_r4_pinned_any", "up r4, pinned design, all orders (D4 at design level)", 2, True),
             m("MC_UpConverter_nolock", "up r2 with read_lock removed still satisfies R_Conv (the write command always precedes the read: read_lock is redundant behind an in-order memory)"),
